@@ -62,6 +62,13 @@ BASELINE_INTERPRETER = '/venv/bin/python'
 BASELINE_CHECKS = {'C01', 'C02', 'C12', 'C15'}
 
 
+# generated modules (harness/gens) a check's model is instantiated from; the checks not listed here add their unrecognised anchors themselves
+SHAPE_MODULES = {
+	'C01': ['ArrayOps'], 'C02': ['ArrayOps'], 'C12': ['ArrayOps'], 'C15': ['ArrayOps'], 'C13': ['IdsOps'], 'C03': ['OutlineOps'],
+	'C04': ['SyntaxOps', 'GrammarTerminals'], 'C11': ['SyntaxOps', 'GrammarTerminals'], 'C05': ['ExpandOps'], 'C08': ['AddressOps'],
+}
+
+
 def cmd_check(args):
 	tier = args.tier or os.environ.get('VERIF_TIER') or 'quick'
 	if args.id in BASELINE_CHECKS and os.path.realpath(sys.executable) != os.path.realpath(BASELINE_INTERPRETER) \
@@ -78,6 +85,11 @@ def cmd_check(args):
 		unrecognised, shapes = gen.regenerate()
 		check.shape_report = shapes.report
 		module.run(check, unrecognised)
+		# an anchor whose skeleton is no longer the pinned one is a broken tie for every check that regenerates from it
+		for shape_module in SHAPE_MODULES.get(args.id, []):
+			for key in unrecognised.get(shape_module, []):
+				if not any(key in item for item in check.broken):
+					check.broken.append(f'shape:{key}')
 	except Exception as ex:  # pylint: disable=broad-except
 		import traceback
 		traceback.print_exc()
